@@ -1,9 +1,9 @@
 CONSTANTS
-    Chans = {1, 2}
-    MaxCalls = 1
-    SrvBudget = 2
-    Ops = {"listen", "publish"}
-    SrvKinds = {"ack", "blocked"}
+    Chans = {1}
+    MaxCalls = 2
+    SrvBudget = 1
+    Ops = {"consume", "cancel", "close"}
+    SrvKinds = {"deliver", "cancel", "chclose", "connclose"}
     Faults = {}
     ClientClose = TRUE
     Bug = {}
